@@ -584,6 +584,44 @@ func runC01(r *Run) {
 		r.atLeast("appends to Route.Handlers", n, 1)
 	})
 
+	r.rule("R10", "a root-level middleware route matches every request: in Route.match, from the `use` and `root` edges no answer other than true is reachable (a detection path can be empty: a path of slashes only, trimmed as trailing slashes) (E1)", func() {
+		f := r.Fn("", "(*Route).match")
+		var useTrue []edge
+		for _, br := range branchesInOne(f) {
+			if loadOfField(br.Info.Root, "Route.use") {
+				if s, ok := br.truthSlot(true); ok {
+					useTrue = append(useTrue, edge{br.If.Block(), s})
+				}
+			}
+		}
+		r.need(len(useTrue) >= 1, "Route.match branches on Route.use")
+		notTrue := func(in ssa.Instruction) bool {
+			ret, ok := in.(*ssa.Return)
+			if !ok || ret.Parent() != f || len(ret.Results) != 1 {
+				return false
+			}
+			b, isC := constBool(asConst(stripValue(ret.Results[0])))
+			return !(isC && b)
+		}
+		n := 0
+		for _, ue := range useTrue {
+			for _, br := range branchesInOne(f) {
+				if !loadOfField(br.Info.Root, "Route.root") || !dom(ue.To(), br.If.Block()) || len(ue.To().Preds) != 1 {
+					continue
+				}
+				s, ok := br.truthSlot(true)
+				if !ok {
+					continue
+				}
+				n++
+				path, hit := reachEdge(edge{br.If.Block(), s}, notTrue, nil, nil)
+				r.check(hit == nil, fmt.Sprintf("match:use∧root#%d:matches-everything", n), r.pos(br.If), "from the use ∧ root edge only `return true` is reachable",
+					"a middleware registered on the root can fail to match: GET // (detection path empty after the trailing slashes are trimmed) skips app.Use(auth) while /:id? still answers: "+pathString(r.P, path))
+			}
+		}
+		r.atLeast("use ∧ root tests in Route.match", n, 1)
+	})
+
 	r.rule("R8", "cursor/bucket coherence: every function that assigns treePathHash or methodInt re-bases indexRoute on the same path, or all its callers do (E4c, belief rule)", func() {
 		withoutHelpers(func() { // attribution rule: each construct belongs to the one function that contains it
 			selectors := []string{"DefaultCtx.treePathHash", "DefaultCtx.methodInt"}
